@@ -14,6 +14,7 @@ Property theorems only (helpers: `Gotlcp.Lemmas.Parsers`, `Gotlcp.Lemmas.Parsers
 (b) NO SPIN and (c) BOUNDED MEMORY: second half of the file.
 -/
 import Gotlcp.Lemmas.Parsers
+import Gotlcp.Lemmas.ParsersLoop
 import Gotlcp.Model.ParsersFacts
 
 namespace Gotlcp.Props.C09
@@ -143,9 +144,9 @@ theorem C09_no_panic_header_tlcp (raw : Bytes) (hr : Facts.tlcp.recordHeaderLen 
   headerT_no_panic _ (by decide) raw hr
 
 /-- dtlcp `readRecordOrCCS`: header slicing of any datagram remainder -/
-theorem C09_no_panic_header_dtlcp (haveVers : Bool) (vers : Nat) (buf : Bytes) :
-    splitD Facts.dtlcp.recordHeaderLen Facts.dtlcp.maxCiphertext haveVers vers buf ≠ .panic :=
-  splitD_no_panic _ _ (by decide) haveVers vers buf
+theorem C09_no_panic_header_dtlcp (haveVers : Bool) (vers : Nat) (buf : Bytes) (firstRecord : Bool) :
+    splitD Facts.dtlcp.recordHeaderLen Facts.dtlcp.maxCiphertext haveVers vers buf firstRecord ≠ .panic :=
+  splitD_no_panic _ _ (by decide) haveVers vers buf firstRecord
 
 /-! ### the defects on the unchanged tree (negations on concrete witnesses) and non-vacuity -/
 
@@ -183,5 +184,100 @@ example : guardsT = .repaired ∧ guardsD = .repaired := by decide
 -- framing: a complete 1-byte ServerHelloDone-like message followed by one more byte
 example : (frameT 65536 [14, 0, 0, 1, 7, 9]).cls = "ok" := by decide
 example : (splitD 13 18432 false 0 [22, 1, 1, 0, 0, 0, 0, 0, 0, 0, 0, 0, 1, 5]).cls = "ok" := by decide
+
+/-! ### (b) no spin and (c) bounded memory — stream stack -/
+
+section Stream
+open Gotlcp.Model.ParsersLoop Gotlcp.Lemmas.ParsersLoop
+
+/-- the loop constants and guards the theorems below rely on, as extracted from tlcp -/
+theorem C09_facts_stream :
+    5 ≤ limitsT.hdr ∧ limitsT.maxPlaintext ≤ limitsT.maxCiphertext ∧
+    Facts.tlcp.recRetryGuard = true ∧ Facts.tlcp.recLenGuard = true ∧
+    Facts.tlcp.hsFrameGuards = ["for c.hand.Len() < 4", "if n > maxHandshake", "for c.hand.Len() < 4+n", "next c.hand.Next(4 + n)"] ∧
+    -- F8: handshake records are refused once the handshake is complete
+    limitsT.refusePostHs = true := by
+  decide
+
+/-- NO SPIN, stream stack.  For every connection state, every byte string still to come, every
+segmentation of the transport and every answer of the cipher:
+* one pass through `readRecordOrCCS` that does not return an error (it delivers a record or
+  asks for a retry) has consumed at least `recordHeaderLen` bytes of input, and a retry leaves
+  `retryCount` unchanged, so that `retryReadRecord` counts it;
+* `readRecordOrCCS`+`retryReadRecord`, the two loops of `readHandshake`, `readHandshake` and the
+  loop of `Read` never reach the `stuck` exit of their well-founded definitions (the measure —
+  retry budget, resp. remaining input — really decreases on every iteration) and never panic;
+* a `readRecord` that starts with `retryCount ≤ maxUselessRecords` ends with
+  `retryCount ≤ maxUselessRecords` when it delivers a record (one more when it gives up). -/
+theorem C09_progress (lib : Lib) (s : St) (e : Bool) (need : Nat) :
+    (((step limitsT lib s e).2 = .retry ∨ (step limitsT lib s e).2 = .done (.ok ())) →
+        (step limitsT lib s e).1.total + Facts.tlcp.recordHeaderLen ≤ s.total) ∧
+    ((step limitsT lib s e).2 = .retry → (step limitsT lib s e).1.retry = s.retry) ∧
+    ((readRecord limitsT lib s e).2 = .ok () →
+        (readRecord limitsT lib s e).1.total + Facts.tlcp.recordHeaderLen ≤ s.total) ∧
+    (readRecord limitsT lib s e).2 ≠ .err .stuck ∧ (readRecord limitsT lib s e).2 ≠ .panic ∧
+    (s.retry ≤ Facts.tlcp.maxUselessRecords →
+        (readRecord limitsT lib s e).1.retry ≤ Facts.tlcp.maxUselessRecords + 1 ∧
+        ((readRecord limitsT lib s e).2 = .ok () → (readRecord limitsT lib s e).1.retry ≤ Facts.tlcp.maxUselessRecords)) ∧
+    (readUntil limitsT lib s need).2 ≠ .err .stuck ∧ (readUntil limitsT lib s need).2 ≠ .panic ∧
+    (readHandshake limitsT lib s).2 ≠ .err .stuck ∧ (readHandshake limitsT lib s).2 ≠ .panic ∧
+    (readApp limitsT lib s).2 ≠ .err .stuck ∧ (readApp limitsT lib s).2 ≠ .panic := by
+  have h5 : 5 ≤ limitsT.hdr := C09_facts_stream.1
+  have sp := step_spec limitsT lib s e h5
+  have rs := readRecord_spec limitsT lib e h5 s
+  have us := readUntil_spec limitsT lib need h5 s
+  have hs := readHandshake_spec limitsT lib h5 s
+  have as := readApp_spec limitsT lib h5 s
+  exact ⟨sp.consumed, fun h => (sp.retry_keeps h).1, rs.consumed, rs.no_stuck, rs.no_panic, rs.retry_le,
+    us.no_stuck, us.no_panic, hs.no_stuck, hs.no_panic, as.no_stuck, as.no_panic⟩
+
+/-- every loop also only ever moves forward through the input: nothing is read twice -/
+theorem C09_progress_monotone (lib : Lib) (s : St) :
+    (readHandshake limitsT lib s).1.total ≤ s.total ∧ (readApp limitsT lib s).1.total ≤ s.total :=
+  ⟨(readHandshake_spec limitsT lib C09_facts_stream.1 s).total_le, (readApp_spec limitsT lib C09_facts_stream.1 s).total_le⟩
+
+/-- BOUNDED MEMORY, stream stack.  For every byte string the peer may send, every
+segmentation of the transport into reads of at most `chunk` bytes, every answer of the cipher
+and of the message decoders, and every sequence of receive operations of the handshake and of
+the application (`readHandshake`, `readChangeCipherSpec`, completion, `Read`), the connection
+holds at most one maximum-size handshake message plus one record in `c.hand`, and one
+maximum-size record plus one transport read in `c.rawInput`. -/
+theorem C09_mem_tlcp (lib : Lib) (chunk : Nat) (hseg : ∀ m, lib.seg m ≤ chunk) (h1 : 1 ≤ chunk)
+    (wire : Bytes) (ops : List Op) :
+    (run limitsT lib (St.init wire) ops).hand.length ≤ 4 + Facts.tlcp.maxHandshake + Facts.tlcp.maxCiphertext ∧
+    (run limitsT lib (St.init wire) ops).raw.length ≤ Facts.tlcp.recordHeaderLen + Facts.tlcp.maxCiphertext + chunk := by
+  have f := C09_facts_stream
+  have hmp : limitsT.maxPlaintext ≤ limitsT.maxCiphertext := f.2.1
+  have inv := run_inv limitsT lib f.1 f.2.2.2.2.2 chunk
+    (4 + limitsT.maxHandshake + limitsT.maxPlaintext) (limitsT.hdr + limitsT.maxCiphertext + chunk)
+    hseg h1 (by omega) (by omega) ops (St.init wire) ⟨by simp [St.init], by simp [St.init]⟩
+  obtain ⟨ih, ir⟩ := inv
+  have e1 : limitsT.maxHandshake = Facts.tlcp.maxHandshake := rfl
+  have e2 : limitsT.maxCiphertext = Facts.tlcp.maxCiphertext := rfl
+  have e3 : limitsT.hdr = Facts.tlcp.recordHeaderLen := rfl
+  refine ⟨by omega, by omega⟩
+
+/-- the form of the statement with Go's `bytes.MinRead` (512) as the size of a transport read -/
+theorem C09_mem_tlcp_minread (lib : Lib) (hseg : ∀ m, lib.seg m ≤ 512) (wire : Bytes) (ops : List Op) :
+    (run limitsT lib (St.init wire) ops).hand.length ≤ 4 + Facts.tlcp.maxHandshake + Facts.tlcp.maxCiphertext ∧
+    (run limitsT lib (St.init wire) ops).raw.length ≤ Facts.tlcp.recordHeaderLen + Facts.tlcp.maxCiphertext + 512 :=
+  C09_mem_tlcp lib 512 hseg (by decide) wire ops
+
+/-- F8 on the unchanged tree, at the level of the model: with `refusePostHs = false` a
+handshake record that arrives after the handshake is appended to `c.hand` and reported as
+success, so `Read` goes on to the next record; nothing ever removes it. -/
+def limitsUnrepaired : Limits := { limitsT with refusePostHs := false }
+def sDone : St := { St.init [] with complete := true, prot := true, haveVers := true, hand := [9, 9, 9] }
+example : dispatch limitsUnrepaired sDone false 22 [1, 2, 3, 4] =
+    ({ sDone with hand := [9, 9, 9, 1, 2, 3, 4] }, .done (.ok ())) := by decide
+-- the repaired code refuses the same record and keeps the buffer as it was
+example : dispatch limitsT sDone false 22 [1, 2, 3, 4] =
+    ({ sDone with inErr := true }, .done (.err .unexpected)) := by decide
+-- during the handshake the record is buffered, as it must be
+example : (dispatch limitsT { sDone with complete := false } false 22 [1, 2, 3, 4]).1.hand = [9, 9, 9, 1, 2, 3, 4] := by decide
+-- non-vacuity of the segmentation hypothesis and of `run`
+example : ∃ lib : Lib, ∀ m, lib.seg m ≤ 512 := ⟨{ seg := fun _ => 512, dec := fun _ _ => none, unmarshalOk := fun _ => true }, fun _ => Nat.le_refl _⟩
+
+end Stream
 
 end Gotlcp.Props.C09
